@@ -228,8 +228,16 @@ class IntervalInterp:
 
 def nlz_function(F):
     k = hll_kernels(F)["add"]
-    cands = [c.callee for c in F.calls_from(k) if c.callee.is_kernel and c.callee.name != "fasthash64"
-             and c.callee.module.short == "hyperloglog"]
+    # kernels of the module reached from add() -- directly or through an extracted rank helper (`_rho(h, p)` calling the counter)
+    cands, todo, seen = [], [k], set()
+    while todo:
+        g = todo.pop()
+        for c in F.calls_from(g):
+            cal = c.callee
+            if cal.is_kernel and cal.name != "fasthash64" and cal.module.short == "hyperloglog" and cal.key not in seen:
+                seen.add(cal.key)
+                cands.append(cal)
+                todo.append(cal)
     cands = [c for c in cands if len(c.params) == 1 and c.rtype is not None and c.rtype.kind == "uint" and c.rtype.bits == 8] or cands
     cands = list({c.key: c for c in cands}.values())
     if len(cands) != 1:
@@ -641,6 +649,13 @@ def hll_query_helpers(F):
             lc = f if lc is None else lc
     if lc is None or est is None:
         raise AnalysisError("%s: linear-counting / estimation helpers not identified" % q.key)
+    # the harmonic sum may live in a helper of its own (`_estimation_function` = alpha * m^2 / _inverse_power_sum(registers)): the
+    # estimator is then the three-parameter kernel that calls it, the sum helper is remembered on the side (rule forms)
+    F.hll_sum_helper = est
+    if len(est.params) == 1:
+        tops = [f for f in callees.values() if len(f.params) >= 3 and any(cc.callee is est for cc in F.calls_from(f))]
+        if len(tops) == 1:
+            est = tops[0]
     F.extra_units.update([lc.name, est.name])
     return q, lc, est
 
@@ -661,6 +676,8 @@ def rule_forms(ctx):
     ctx.analysed_funcs.update([lc.key, est.key])
     # LC: m * log(m / n_zero)
     r = _single_return(lc)
+    if len(lc.params) < 2:
+        raise AnalysisError("%s: linear counting does not take (m, n_zero): shape not understood" % lc.key)
     m_, z_ = lc.params[0], lc.params[1]
     want = parse_nf("%s * log(%s / %s)" % (m_, m_, z_))
     okk = r is not None and nf(resolve_temps(lc.node, r.value)) == want
@@ -673,7 +690,16 @@ def rule_forms(ctx):
         okk = len(a) == 2 and isinstance(a[0], Num) and a[0].lin == Lin.term(("param", mm)) and isinstance(a[1], Num) and _is_nzero(w, a[1], mm)
         ctx.ob("forms", q, c.node, "%s(m, n_zero)" % lc.name, "linear counting receives (m, number of zero registers)", bool(okk))
     # EST: alpha * m^2 / sum(2^-r)
-    regs, mpar, apar = est.params[0], est.params[1], est.params[2]
+    # `top` is the three-parameter kernel the query calls, `est` the kernel that owns the loop of the harmonic sum (the same one
+    # unless the sum was extracted into a helper of its own)
+    top = est
+    est = getattr(F, "hll_sum_helper", est)
+    if len(top.params) < 3 or (top is not est and len(est.params) != 1):
+        raise AnalysisError("%s: the estimator helpers do not take (registers, m, alpha): shape not understood" % top.key)
+    if len(lc.params) < 2:
+        raise AnalysisError("%s: linear counting does not take (m, n_zero): shape not understood" % lc.key)
+    regs = est.params[0]
+    mpar, apar = (top.params[1], top.params[2])
     r = _single_return(est)
     acc = None
     okloop = False
@@ -700,9 +726,41 @@ def rule_forms(ctx):
             if isinstance(it, ast.Name) and it.id == regs:
                 okloop = nf(term) == parse_nf("2.0 ** (-%s)" % n.target.id)
             elif isinstance(it, ast.Call) and dotted(it.func) == "range" and len(it.args) == 1 and \
-                    unparse(it.args[0]) in (mpar, "len(%s)" % regs, "%s.shape[0]" % regs, "%s.size" % regs):
+                    unparse(it.args[0]) in ((mpar,) if top is est else ()) + ("len(%s)" % regs, "%s.shape[0]" % regs, "%s.size" % regs):
                 # range(m): m is the number of registers (bind rule); range(len(registers)) is every register by construction
                 okloop = nf(term) == parse_nf("2.0 ** (-%s[%s])" % (regs, n.target.id))
+    if not okloop:
+        # the same loop written with an explicit counter: `i = 0; while i < n: acc = acc + 2.0 ** (-float64(regs[i])); i += 1`
+        for n in walk_no_nested(est.node):
+            if not (isinstance(n, ast.While) and isinstance(n.test, ast.Compare) and len(n.test.ops) == 1 and isinstance(n.test.ops[0], ast.Lt)
+                    and isinstance(n.test.left, ast.Name) and not n.orelse):
+                continue
+            iv = n.test.left.id
+            body = [s_ for s_ in n.body if not (isinstance(s_, ast.Expr) and isinstance(s_.value, ast.Constant))]
+            if len(body) != 2:
+                continue
+            upd, inc = body
+            inc_ok = (isinstance(inc, ast.AugAssign) and isinstance(inc.op, ast.Add) and isinstance(inc.target, ast.Name) and inc.target.id == iv
+                      and const_int(inc.value) == 1) or \
+                     (isinstance(inc, ast.Assign) and isinstance(inc.targets[0], ast.Name) and inc.targets[0].id == iv and isinstance(inc.value, ast.BinOp)
+                      and isinstance(inc.value.op, ast.Add) and {unparse(inc.value.left), unparse(inc.value.right)} & {iv}
+                      and 1 in (const_int(inc.value.left), const_int(inc.value.right)))
+            starts = [a_ for a_ in walk_no_nested(est.node) if isinstance(a_, ast.Assign) and isinstance(a_.targets[0], ast.Name) and a_.targets[0].id == iv
+                      and a_ is not inc]
+            start_ok = len(starts) == 1 and const_int(starts[0].value) == 0
+            bound_ok = unparse(resolve_temps(est.node, n.test.comparators[0], allow_subscript=True, pure_only=False, in_loops=False, loose=True)) in \
+                ((mpar,) if top is est else ()) + ("len(%s)" % regs, "%s.shape[0]" % regs, "%s.size" % regs)
+            term = None
+            if isinstance(upd, ast.AugAssign) and isinstance(upd.op, ast.Add) and isinstance(upd.target, ast.Name):
+                acc, term = upd.target.id, upd.value
+            elif isinstance(upd, ast.Assign) and isinstance(upd.targets[0], ast.Name) and isinstance(upd.value, ast.BinOp) and isinstance(upd.value.op, ast.Add):
+                a_ = upd.targets[0].id
+                if isinstance(upd.value.left, ast.Name) and upd.value.left.id == a_:
+                    acc, term = a_, upd.value.right
+                elif isinstance(upd.value.right, ast.Name) and upd.value.right.id == a_:
+                    acc, term = a_, upd.value.left
+            if term is not None and inc_ok and start_ok and bound_ok:
+                okloop = nf(term) == parse_nf("2.0 ** (-%s[%s])" % (regs, iv))
     ctx.ob("forms", est, est.node, "%s: for r in registers: total += 2**-r" % est.name, "the harmonic sum runs over every register with terms 2^-r", okloop)
     init_ok = False
     for n in walk_no_nested(est.node):
@@ -711,17 +769,37 @@ def rule_forms(ctx):
             init_ok = nf(n.value) == ("c", 0.0)
     ctx.ob("forms", est, est.node, "%s: total = 0" % est.name, "the harmonic sum starts at zero", init_ok)
     want = parse_nf("%s * %s * %s / %s" % (apar, mpar, mpar, acc or "total"))
-    got = nf(resolve_temps(est.node, r.value)) if r is not None else None
+    if top is not est:
+        # the sum helper returns its accumulator; the top kernel divides alpha * m^2 by that call on its own registers parameter
+        ok_sum = r is not None and isinstance(r.value, ast.Name) and r.value.id == acc
+        ctx.ob("forms", est, r or est.node, "%s: return %s" % (est.name, unparse(r.value) if r else "?"), "the sum helper returns the harmonic sum", bool(ok_sum))
+        r = _single_return(top)
+        ctx.analysed_funcs.add(top.key)
+        got = None
+        if r is not None:
+            import copy as _copy
+            e_ = resolve_temps(top.node, r.value)
+
+            class _Hole(ast.NodeTransformer):
+                def visit_Call(self, c):
+                    self.generic_visit(c)
+                    if isinstance(c.func, ast.Name) and c.func.id == est.name and len(c.args) == 1 and isinstance(c.args[0], ast.Name) \
+                            and c.args[0].id == top.params[0] and not c.keywords:
+                        return ast.copy_location(ast.Name(id=acc or "total", ctx=ast.Load()), c)
+                    return c
+            got = nf(_Hole().visit(_copy.deepcopy(e_)))
+    else:
+        got = nf(resolve_temps(est.node, r.value)) if r is not None else None
     # accept alpha*(m*m)/total with either association of the division
     alt = parse_nf("%s * (%s * %s) / %s" % (apar, mpar, mpar, acc or "total"))
     okk = got is not None and (got == want or got == alt or _div_nf(got) == _div_nf(want))
-    ctx.ob("forms", est, r or est.node, "%s: return %s" % (est.name, unparse(r.value) if r else "?"), "raw estimate is alpha * m^2 / sum(2^-r)", bool(okk))
-    for c in [e for e in w.events if e.kind == "call" and e.callee is est]:
+    ctx.ob("forms", top, r or top.node, "%s: return %s" % (top.name, unparse(r.value) if r else "?"), "raw estimate is alpha * m^2 / sum(2^-r)", bool(okk))
+    for c in [e for e in w.events if e.kind == "call" and e.callee is top]:
         a = c.args
         okk = len(a) == 3 and isinstance(a[0], Arr) and a[0].name == F.param_for(q, "registers") and isinstance(a[1], Num) \
             and a[1].lin == Lin.term(("param", F.param_for(q, "m"))) and isinstance(a[2], Num) and a[2].lin == Lin.term(("param", F.param_for(q, "alpha")))
-        ctx.ob("forms", q, c.node, "%s(registers, m, alpha)" % est.name, "the raw estimate receives (registers, m, alpha)", bool(okk))
-    return lc, est
+        ctx.ob("forms", q, c.node, "%s(registers, m, alpha)" % top.name, "the raw estimate receives (registers, m, alpha)", bool(okk))
+    return lc, top
 
 
 def _div_nf(t):
@@ -821,8 +899,25 @@ def _has(conds, kind, lin):
     """Does the path contain a decision equivalent to: pos: lin>=1 | zero: lin<=0 | le: lin<=0 | lt: lin<0 ?"""
     if lin is None:
         return False
-    for cc in conds:
-        for c in conjuncts(cc):
+    # conjuncts of the path; a disjunction all but one of whose alternatives contradict another conjunct (`n == 0 and (n != 0 or E <= 5m)`,
+    # the negation of a two-flag test) counts as its one remaining alternative
+    flat = [c for cc in conds for c in conjuncts(cc)]
+    atoms = [c for c in flat if c[0] in ("eq", "ne")]
+
+    def contradicted(d):
+        if d[0] == "ne":
+            return any(a[0] == "eq" and (a[1] == d[1] or a[1] == -d[1]) for a in atoms)
+        if d[0] == "eq":
+            return any(a[0] == "ne" and (a[1] == d[1] or a[1] == -d[1]) for a in atoms)
+        return False
+    extra = []
+    for c in flat:
+        if c[0] == "or":
+            alive = [d for d in c[1] if not contradicted(d)]
+            if len(alive) == 1:
+                extra.extend(conjuncts(alive[0]))
+    for cc in [flat + extra]:
+        for c in cc:
             k, l = c[0], c[1] if len(c) > 1 else None
             if kind == "pos":
                 if (k == "le" and l == -lin + 1) or (k == "ne" and (l == lin or l == -lin)) or (k == "flt" and l == -lin):
